@@ -28,7 +28,9 @@ RULE = ("every input of: (bytes) all byte strings of length <= 2 over all 256 va
         "0..7 grid with MaxLocalVariables 6, the boundary planes at the default 25), strings, functions, globals, inherits, classes, class members, switch cases "
         "(direct / sparse / range / string / default encodings), include depth, #if depth, macro expansions (EXPANDMAX), line length around MAXLINE and "
         "NSIZE (12 line kinds), nesting depth of 10 constructs around YYINITDEPTH/YYMAXDEPTH, 84 numeric/character literals in 3 contexts, total code size "
-        "around 32768 and 65536 bytes in 5 placements, 253..259 overridden inherited functions; (hist) all ordered tuples over 25 state-leaving "
+        "around 32768 and 65536 bytes in 5 placements, 253..259 overridden inherited functions, 65535 function literals beside efun-named locals, string-switch labels of very "
+        "different lengths, 4 ways of leaving the compile early x 10 open constructs, and 5 names (3 efuns, a simul_efun, a plain name) x every non-empty subset of the roles "
+        "{inherited function, prototype, global, class, function, argument, local} in one program; (hist) all ordered tuples over 25 state-leaving "
         "candidates loaded with load_object() as genuine histories, each step compared with its fresh-driver outcome. "
         "Oracle after every input: terminates; program or >= 1 compile error; no sanitizer report; no exit; residual compiler state == s0; probe dump == fresh dump")
 
